@@ -1,0 +1,39 @@
+//! Verification hooks (feature `verif_hooks`, off by default).
+//!
+//! Add-only instrumentation used by the model-based verification harness:
+//! thin pass-through accessors that expose crate-private state, and an
+//! optional trace emitter. Nothing here re-implements logic under test and
+//! nothing is compiled unless the feature is enabled.
+
+use std::io::Write;
+use std::sync::atomic::{AtomicU64, Ordering};
+use std::sync::Mutex;
+
+static SEQ: AtomicU64 = AtomicU64::new(0);
+
+lazy_static::lazy_static! {
+    static ref SINK: Mutex<Option<std::fs::File>> = Mutex::new(open_sink());
+}
+
+fn open_sink() -> Option<std::fs::File> {
+    match std::env::var("RNACOS_VERIF_TRACE") {
+        Ok(path) if !path.is_empty() => std::fs::OpenOptions::new()
+            .create(true)
+            .append(true)
+            .open(path)
+            .ok(),
+        _ => None,
+    }
+}
+
+/// Emit one ndjson trace event; a no-op unless `RNACOS_VERIF_TRACE=<file>` is set.
+/// `fields` must be the inside of a JSON object without braces (may be empty).
+pub fn emit(event: &str, fields: &str) {
+    if let Ok(mut guard) = SINK.lock() {
+        if let Some(f) = guard.as_mut() {
+            let seq = SEQ.fetch_add(1, Ordering::SeqCst);
+            let sep = if fields.is_empty() { "" } else { "," };
+            let _ = writeln!(f, "{{\"seq\":{},\"event\":\"{}\"{}{}}}", seq, event, sep, fields);
+        }
+    }
+}
